@@ -103,9 +103,59 @@ func gaValue(name string, p *big.Int) *big.Int {
 	return x
 }
 
+// expect is what the statement demands of a run.
+type expect int
+
+const (
+	mustRefuse   expect = iota // the peer deviates: Run must return an error
+	mustComplete               // honest baseline
+	either                     // every number the peer sends is good, only its wire encoding is unusual (leading zero bytes): the statement is silent
+)
+
+// wireVariant builds a wire encoding from the minimal big-endian encoding v of a good number.
+// name: "pad0:<n>" n leading zero bytes (same number); "prefix:<hex>" / "suffix:<hex>" bytes put in front / appended;
+// "infix:<hex>" hex in front and behind; "drop-first" / "drop-last" one byte removed; "double" v||v.
+func wireVariant(name string, v []byte) []byte {
+	cat := func(parts ...[]byte) []byte {
+		var r []byte
+		for _, p := range parts {
+			r = append(r, p...)
+		}
+		return r
+	}
+	op, arg, _ := strings.Cut(name, ":")
+	switch op {
+	case "pad0":
+		n := atoi(arg)
+		if n < 1 || n > 4096 {
+			return nil
+		}
+		return cat(make([]byte, n), v)
+	case "prefix", "suffix", "infix":
+		x := kit.UnHex(arg)
+		if len(x) == 0 {
+			return nil
+		}
+		switch op {
+		case "prefix":
+			return cat(x, v)
+		case "suffix":
+			return cat(v, x)
+		}
+		return cat(x, v, x)
+	case "drop-first":
+		return cat(v[1:])
+	case "drop-last":
+		return cat(v[:len(v)-1])
+	case "double":
+		return cat(v, v)
+	}
+	return nil
+}
+
 // configure applies the strategy to an honest server. ok=false: unknown strategy/arg.
 // honest=true: the strategy is a baseline that must succeed.
-func configure(s *refexchange.ScriptedServer, w wRun) (honest, ok bool) {
+func configure(s *refexchange.ScriptedServer, w wRun) (want expect, ok bool) {
 	arg := w.Arg
 	switch w.Strategy {
 	// ---- honest baselines -------------------------------------------------------------------
@@ -119,20 +169,20 @@ func configure(s *refexchange.ScriptedServer, w wRun) (honest, ok bool) {
 		if arg != "" {
 			i := strings.IndexByte(arg, '/')
 			if i < 0 {
-				return false, false
+				return mustRefuse, false
 			}
 			p := refexchange.GroupByName(arg[:i])
 			g := atoi(arg[i+1:])
 			if p == nil || g < 2 || g > 7 || !refexchange.EulerQR(int64(g), p) {
-				return false, false
+				return mustRefuse, false
 			}
 			s.DhPrime, s.G = p, g
 		}
-		return true, true
+		return mustComplete, true
 	case "honest.extra-fingerprints":
 		// the trusted fingerprint among unknown ones
 		s.Fingerprints = []int64{rogueFP, 12345, trustedFP, -1}
-		return true, true
+		return mustComplete, true
 
 	// ---- peer without the trusted private key -------------------------------------------------
 	case "rogue.unknown-fingerprint":
@@ -212,19 +262,48 @@ func configure(s *refexchange.ScriptedServer, w wRun) (honest, ok bool) {
 		// so that the residue rule cannot be what rejects it
 		p, safe := refexchange.Candidate(arg)
 		if p == nil || safe || p.Sign() <= 0 {
-			return false, false
+			return mustRefuse, false
 		}
 		s.DhPrime, s.G = p, 4
+	case "m2.dh_prime.wire":
+		// the good prime P inside a longer / shorter / padded dh_prime field: arg = "<g>/<wireVariant>". The server really
+		// works modulo the number the field denotes. A client that recognises P by part of the bytes would go on.
+		gs, variant, _ := strings.Cut(arg, "/")
+		g := atoi(gs)
+		raw := wireVariant(variant, s.DhPrime.Bytes())
+		if raw == nil || g < 2 || g > 7 {
+			return mustRefuse, false
+		}
+		val := new(big.Int).SetBytes(raw)
+		if val.Sign() == 0 {
+			return mustRefuse, false
+		}
+		s.DhPrime, s.G = val, g
+		s.MutInner = func(m *mt.ServerDHInnerData, _ *big.Int) { m.DhPrime = raw }
+		if refexchange.IsSafePrime2048(val, 24) && refexchange.EulerQR(int64(g), val) {
+			return either, true
+		}
+	case "m2.g_a.wire":
+		// the honest g_a in another wire encoding: leading zero bytes (same number), or extra bytes in front / behind
+		// (another number: out of range, or in range with an exponent the server does not have)
+		variant := arg
+		if wireVariant(variant, []byte{1, 2}) == nil {
+			return mustRefuse, false
+		}
+		s.MutInner = func(m *mt.ServerDHInnerData, _ *big.Int) { m.GA = wireVariant(variant, m.GA) }
+		if strings.HasPrefix(variant, "pad0:") {
+			return either, true
+		}
 	case "m2.g":
 		// only g differs from the honest run: arg = "<group>/<bad g>"
 		i := strings.IndexByte(arg, '/')
 		if i < 0 {
-			return false, false
+			return mustRefuse, false
 		}
 		p := refexchange.GroupByName(arg[:i])
 		bad := atoi(arg[i+1:])
 		if p == nil || (bad >= 2 && bad <= 7 && refexchange.EulerQR(int64(bad), p)) {
-			return false, false
+			return mustRefuse, false
 		}
 		s.DhPrime, s.G = p, 4
 		s.MutInner = func(m *mt.ServerDHInnerData, _ *big.Int) { m.G = bad }
@@ -232,7 +311,7 @@ func configure(s *refexchange.ScriptedServer, w wRun) (honest, ok bool) {
 		p := s.DhPrime
 		v := gaValue(arg, p)
 		if v == nil {
-			return false, false
+			return mustRefuse, false
 		}
 		s.MutInner = func(m *mt.ServerDHInnerData, _ *big.Int) { m.GA = v.Bytes() }
 	case "m2.g_a.forced-key":
@@ -251,7 +330,7 @@ func configure(s *refexchange.ScriptedServer, w wRun) (honest, ok bool) {
 			ga = new(big.Int).Sub(p, big.NewInt(1))
 			key = ga
 		default:
-			return false, false
+			return mustRefuse, false
 		}
 		s.MutInner = func(m *mt.ServerDHInnerData, _ *big.Int) { m.GA = ga.Bytes() }
 		s.MutGenOk = func(m *mt.DhGenOk, nn bin.Int256, _ []byte) {
@@ -305,12 +384,12 @@ func configure(s *refexchange.ScriptedServer, w wRun) (honest, ok bool) {
 	case "replay":
 		// handled by the caller (needs a recorded session); arg = message number 1..3
 		if n := atoi(arg); n < 1 || n > 3 {
-			return false, false
+			return mustRefuse, false
 		}
 	default:
-		return false, false
+		return mustRefuse, false
 	}
-	return false, true
+	return mustRefuse, true
 }
 
 func newServer(seed int) *refexchange.ScriptedServer {
@@ -391,7 +470,8 @@ func errLabel(err error) string {
 
 func evalRun(w wRun) kit.Result {
 	srv := newServer(w.Seed)
-	honest, ok := configure(srv, w)
+	want, ok := configure(srv, w)
+	honest := want == mustComplete
 	if !ok {
 		fmt.Fprintf(os.Stderr, "C10: unknown strategy/argument %s(%s)\n", w.Strategy, w.Arg)
 		return kit.Result{Trivial: true, Outcome: "unknown-strategy"}
@@ -428,6 +508,12 @@ func evalRun(w wRun) kit.Result {
 			return infra("honest baseline %s(%s) seed %d: scripted server and client disagree on the key", w.Strategy, w.Arg, w.Seed)
 		}
 		return kit.OKo("honest:completed")
+	}
+	if want == either {
+		if r.err == nil {
+			return kit.Result{Trivial: true, Outcome: "encoding-variant:completed"}
+		}
+		return kit.Result{Trivial: true, Outcome: "encoding-variant:refused:" + errLabel(r.err)}
 	}
 	if r.err == nil {
 		return kit.Bad("completed:"+w.Strategy,
@@ -528,6 +614,14 @@ func main() {
 		add("m2.wrong-type")
 		add("m2.dh_prime", "semiprime", "telegram:+2", "telegram:-2", "telegram:q", "telegram:2p+1", "prime-notsafe-a", "prime-notsafe-b",
 			"sophie-composite-a", "sophie-composite-b", "oakley2", "oakley15", "2^2047:+1", "2^2048:-1", "23", "rfc3526-14:+2", "gen2:-2")
+		// the good prime inside another wire encoding of dh_prime (g = 4: no residue condition; g = 3: the honest generator)
+		wire := []string{"prefix:01", "prefix:02", "prefix:03", "prefix:ff", "prefix:0100", "prefix:0003", "prefix:" + kit.Hex(kit.Pattern("stream:c10:x", 4)),
+			"prefix:" + kit.Hex(kit.Pattern("stream:c10:y", 256)), "double", "suffix:00", "suffix:01", "suffix:" + kit.Hex(kit.Pattern("stream:c10:z", 16)),
+			"infix:01", "drop-first", "drop-last", "pad0:1", "pad0:4", "pad0:256"}
+		for _, v := range wire {
+			add("m2.dh_prime.wire", "4/"+v, "3/"+v)
+		}
+		add("m2.g_a.wire", "pad0:1", "pad0:4", "prefix:01", "prefix:ff00", "suffix:00", "suffix:01", "double", "drop-first", "drop-last")
 		add("m2.g", "telegram/0", "telegram/1", "telegram/-1", "telegram/8", "telegram/9", "telegram/-3", "telegram/131075",
 			"telegram/2", "telegram/6", "gen2/5", "gen2/7", "gen3/2", "gen3/6", "gen3/7", "gen1/2", "gen1/5", "gen1/6")
 		add("m2.g_a", "0", "1", "2", "p-1", "p", "p+1", "p+2^1985", "2^1984", "2^1984-1", "p-2^1984", "p-2^1984+1", "2^2048-1")
@@ -550,6 +644,16 @@ func main() {
 		for _, e := range lib {
 			for s := 0; s < seeds; s++ {
 				cases = append(cases, wRun{Strategy: e.s, Arg: e.a, Seed: s})
+			}
+		}
+		// the key a client would derive modulo a longer dh_prime fits 2048 bits only in a fraction of the runs: more seeds
+		if !th {
+			for _, e := range lib {
+				if e.s == "m2.dh_prime.wire" && strings.Contains(e.a, "/prefix:0") {
+					for s := 1; s < 4; s++ {
+						cases = append(cases, wRun{Strategy: e.s, Arg: e.a, Seed: s})
+					}
+				}
 			}
 		}
 		// temporary mode: the baselines and one representative of every strategy
@@ -575,7 +679,10 @@ func main() {
 			"encrypted_answer with one flipped bit in each of its 37 blocks (thorough: also every bit of the first and last block), truncated / "+
 			"extended / unaligned / empty / garbage / block-swapped / wrong-key answers, altered SHA1 prefix or data after hashing, "+
 			"server_DH_params_fail, wrong constructors, dh_prime in {semiprime, p+-2, (p-1)/2, 2p+1, primes with composite (p-1)/2, composite 2q+1, "+
-			"1024/3072-bit safe primes, 2^2047+1, 2^2048-1, 23}, g in {0,1,-1,8,9,2^32+3, every non-residue g of 2..7 on some embedded group}, "+
+			"1024/3072-bit safe primes, 2^2047+1, 2^2048-1, 23}, the good prime P in another wire form of the dh_prime field x g in {3,4} "+
+			"(X||P for X in {01,02,03,ff,0100,0003, 4 and 256 stream bytes}, P||P, P||00, P||01, P||16 stream bytes, 01||P||01, P without its first / last byte: "+
+			"the server works modulo the number denoted, 4 seeds for the short prefixes; 00-padded P with 1, 4, 256 zero bytes denotes P itself: either outcome accepted), "+
+			"the honest g_a in another wire form (zero-padded: either outcome; bytes in front / behind / removed / doubled: must fail), g in {0,1,-1,8,9,2^32+3, every non-residue g of 2..7 on some embedded group}, "+
 			"g_a in {0,1,2,p-1,p,p+1,p+2^1985,2^1984,2^1984-1,p-2^1984,p-2^1984+1,2^2048-1} an in-range g_a of a foreign exponent, g_a in {0,1,p-1} with a new_nonce_hash1 computed for the key this forces, "+
 			"dh_gen_ok with nonce / server_nonce / new_nonce_hash1 bit flips, zero hash, hash number 2/3/0, hash of another key or new_nonce, "+
 			"dh_gen_retry, dh_gen_fail, wrong constructor, and replay of message 1/2/3 recorded from another session. Bit positions: quick "+
